@@ -113,7 +113,7 @@ def _gp_entries(inc):
     return ['k_gp_%s_%s' % (nm(a), nm(b)) for a in range(-inc, inc + 1) for b in range(-inc, inc + 1) if (a, b) != (0, 0)]
 
 
-for _nx, _ny, _np, _inc, _tiers in ((2, 2, 2, 1, ('quick',)), (3, 2, 3, 1, ('quick', 'thorough')), (3, 3, 3, 1, ('quick', 'thorough')), (3, 3, 3, 2, ('thorough',))):
+for _nx, _ny, _np, _inc, _tiers in ((2, 2, 2, 1, ('quick',)), (3, 2, 3, 1, ('quick', 'thorough')), (3, 3, 3, 2, ('thorough',))):
     K('C12.e.%d%d.%d.i%d' % (_nx, _ny, _np, _inc), property='C12', engine='symex', harness='C12/gridpairs.cpp', entries=_gp_entries(_inc), tus=_GRIDPAIR_TUS,
       defines={'all': {'VF_NX': _nx, 'VF_NY': _ny, 'VF_NPAS': _np}}, tiers=_tiers,
       bounds={'quick': 'concrete %dx%d grid (2-D), npas = %d lags; grid increment of the direction: every non-null integer vector of [-%d,%d]^2 (one entry point each); selection present or not with any mask; '
